@@ -26,6 +26,7 @@ type Obl struct {
 	Inputs  []string // names of SMT constants that are the function's inputs (for models)
 	Results []TV     // SMT terms of the returned values (post obligations)
 	Short   bool     // not in the baseline and only panic-freedom: one short solver attempt
+	Static  string   // decided without the solver (dataflow rule): "ok" or "fail: <why>"
 	enc     *Enc
 }
 
